@@ -50,7 +50,7 @@ Proof. destruct r; cbn; intros H; inversion H; auto. Qed.
 (* a statement that gets past the guards and fails: nothing changed, and the code is the engine's *)
 Lemma exec_err w ci c o w' e : exec w ci c o = (w', RErr e) -> w' = w /\ ecode e.
 Proof.
-  destruct o as [d|d s|d s|q|q|q|d|d s|]; cbn [exec].
+  destruct o as [d|d s|d s|q|q|q|d|d s| |d s]; cbn [exec].
   - destruct (engine_codes (cat w) d [] []) as (L1&L2&L3&L4&L5&L6&L7).
     intros H. apply with_cat_err in H as [-> H]. eauto.
   - destruct (engine_codes (cat w) (orelse d (edb c)) s []) as (L1&L2&L3&L4&L5&L6&L7).
@@ -70,6 +70,7 @@ Proof.
       destruct (e_set_schema (cat w) d s) eqn:E; intros H; inversion H; subst. eauto.
     + destruct (engine_codes (cat w) (orelse (cdb c) s_missing_db) s []) as (L1&L2&L3&L4&L5&L6&L7).
       destruct (e_set_schema (cat w) (orelse (cdb c) s_missing_db) s) eqn:E; intros H; inversion H; subst. eauto.
+  - intros H. inversion H.
   - intros H. inversion H.
 Qed.
 
@@ -103,7 +104,7 @@ Proof.
   intros w ci cj o N. unfold step. destruct (cget (conns w) ci) as [c|]; [|reflexivity].
   destruct (fst (needs o) && negb (dset c)); [reflexivity|].
   destruct (snd (needs o) && negb (sset c)); [reflexivity|].
-  destruct o as [d|d s|d s|q|q|q|d|d s|]; cbn [exec].
+  destruct o as [d|d s|d s|q|q|q|d|d s| |d s]; cbn [exec].
   - destruct (e_create_db _ _); reflexivity.
   - destruct (e_create_schema _ _ _); reflexivity.
   - destruct (e_drop_schema _ _ _); cbn [fst conns]; [apply cget_cset_other; assumption|reflexivity].
@@ -113,6 +114,7 @@ Proof.
   - destruct (e_set_schema _ _ _); cbn [fst conns]; [reflexivity|apply cget_cset_other; assumption].
   - destruct d as [d|]; cbn zeta; destruct (e_set_schema _ _ _); cbn [fst conns]; try reflexivity; apply cget_cset_other; assumption.
   - reflexivity.
+  - cbn [fst conns]. apply cget_cset_other; assumption.
 Qed.
 
 (* ---- coherence ---- *)
@@ -145,7 +147,7 @@ Proof.
   pose proof (All c (cget_in _ _ _ G)) as [C1 C2].
   destruct (fst (needs o) && negb (dset c)); [exact All|].
   destruct (snd (needs o) && negb (sset c)); [exact All|].
-  destruct o as [d|d s|d s|q|q|q|d|d s|]; cbn [exec].
+  destruct o as [d|d s|d s|q|q|q|d|d s| |d s]; cbn [exec].
   - destruct (e_create_db _ _); exact All.
   - destruct (e_create_schema _ _ _); exact All.
   - destruct (e_drop_schema _ _ _); cbn [fst conns]; [|exact All].
@@ -163,6 +165,7 @@ Proof.
       intros k Hk; apply in_cset in Hk as [->|Hk]; auto; split; cbn; auto.
     intros _. rewrite (C1 D). reflexivity.
   - exact All.
+  - cbn [fst conns]. intros k Hk. apply in_cset in Hk as [->|Hk]; [|auto]. split; cbn; auto.
 Qed.
 
 (* along any history whose every step is inside the domain *)
@@ -216,6 +219,39 @@ Proof.
   destruct (mem t ts); [discriminate|]. cbn [with_cat]. intros H. inversion H; subst.
   intros cj k Gj. unfold step. cbn [conns] in *. rewrite Gj. cbn [needs fst snd andb exec locate cat].
   unfold e_lookup. rewrite !assoc_put_same, mem_app_last. reflexivity.
+Qed.
+
+(* ---- a new session gets what it asked for, whatever the instance's history ---- *)
+Lemma assoc_app_none {X} (l : list (name * X)) k v : assoc l k = None -> assoc (l ++ [(k, v)]) k = Some v.
+Proof.
+  induction l as [|[k' v'] l IH]; cbn; [rewrite str_eqb_refl; reflexivity|].
+  destruct (str_eqb k' k); [discriminate|exact IH].
+Qed.
+
+Theorem reconnect_sets_context_l : forall w ci c d s, cget (conns w) ci = Some c ->
+  let w' := fst (step w ci (Reconnect d s)) in
+  e_set_schema (cat w') d s = None /\ snd (step w' ci Current) = RCtx d s /\
+  (forall t, e_lookup (cat w) d s t = RTable d s t -> snd (step w' ci (Select (Q1 t))) = RTable d s t) /\
+  (forall k, In k (conns w') -> k = {| cdb := Some d; csch := Some s; dset := true; sset := true; edb := d; esch := s |} \/ In k (conns w)).
+Proof.
+  intros w ci c d s G. unfold step at 1 2 3. rewrite G. cbn [needs fst snd andb exec].
+  set (k1 := match assoc (cat w) d with Some _ => cat w | None => cat w ++ [(d, [(s_main, [])])] end).
+  assert (A1 : exists ss, assoc k1 d = Some ss /\ (forall ss0, assoc (cat w) d = Some ss0 -> ss = ss0 /\ k1 = cat w)).
+  { unfold k1. destruct (assoc (cat w) d) as [ss|] eqn:E.
+    - exists ss. split; [exact E|]. intros ss0 H. injection H as <-. auto.
+    - eexists. split; [apply assoc_app_none; exact E|]. discriminate. }
+  destruct A1 as (ss & A1 & A1'). rewrite A1.
+  pose proof (cget_lt _ _ _ G) as Lt.
+  assert (Ex : forall k2, (match assoc ss s with Some _ => k1 | None => put k1 d (ss ++ [(s, [])]) end) = k2 -> e_set_schema k2 d s = None).
+  { intros k2 <-. unfold e_set_schema. destruct (assoc ss s) eqn:E; [rewrite A1, E; reflexivity|].
+    rewrite assoc_put_same. rewrite (assoc_app_none _ _ _ E). reflexivity. }
+  cbn [fst cat conns]. split; [apply Ex; reflexivity|]. split; [|split].
+  - unfold step. cbn [conns]. rewrite cget_cset_same by exact Lt. reflexivity.
+  - intros t Ht. unfold step. cbn [conns]. rewrite cget_cset_same by exact Lt. cbn [needs fst snd dset sset andb negb exec locate edb esch cat].
+    unfold e_lookup in Ht. destruct (assoc (cat w) d) as [ss0|] eqn:E0; [|discriminate].
+    destruct (A1' ss0 eq_refl) as [-> K1]. destruct (assoc ss0 s) as [ts|] eqn:E1; [|discriminate].
+    rewrite K1. unfold e_lookup. rewrite E0, E1. exact Ht.
+  - intros k Hk. apply in_cset in Hk. exact Hk.
 Qed.
 
 Definition k0 : catalog := [(lit "DB1", [(s_main, []); (lit "S1", [lit "T"]); (lit "S2", [])]); (lit "DB2", [(s_main, []); (lit "S1", [])])].
